@@ -13,6 +13,14 @@ func buildCases(id string, g *Gen) []*Case {
 		return casesC04(g)
 	case "C05":
 		return casesC05(g)
+	case "C06":
+		return casesC06(g)
+	case "C07":
+		return casesC07(g)
+	case "C13":
+		return casesC13(g)
+	case "C18":
+		return casesC18(g)
 	case "C08":
 		return casesC08(g)
 	case "C09":
